@@ -39,9 +39,7 @@ KNOWN = set(S.HEADER_LIST) | set(S.REQUIRED)
 
 
 def _work_dir() -> str:
-    d = os.path.join(core.VERIF, ".work")
-    os.makedirs(d, exist_ok=True)
-    return d
+    return core.work_dir()
 
 
 def add_markers(spec: dict, max_tick: int) -> dict:
@@ -132,8 +130,8 @@ def check_case(ctx: Ctx, case) -> None:
     secs = S.sections_of(spec)
     text = S.render_sections(secs)
     rc = {"text": text, "order": case.get("order"), "unknown": case.get("unknown")}
-    # (a) conformance + no warnings
-    with C.capture_logs() as recs:
+    # (a) conformance + no warnings (for a quarter of the cases with DEBUG logging effective)
+    with C.capture_logs(debug=len(text) % 4 == 2) as recs:
         try:
             base = L.parse(text)
         except Exception as e:  # noqa: BLE001
@@ -251,6 +249,20 @@ def header_cases(ctx: Ctx):
     names = [n for n, _ in S.sections_of(allspec)]
     yield {"spec": allspec, "order": list(reversed(names)), "unknown": [["Foo", ["x"], 7]]}
     yield {"spec": allspec, "order": names[3:] + names[:3], "unknown": []}
+    # a HUGE file (> 1.2 million characters, ~70 000 lines): anything that reads or frames the text in
+    # blocks meets many block boundaries inside lines
+    big_tracks = {}
+    for k, h in enumerate(["ExpertSingle", "HardSingle", "ExpertDoubleBass", "ExpertDrums", "EasyKeyboard"]):
+        items = []
+        for j in range(14000):
+            t = 192000 + j * 48 + k
+            items.append([t, "N", (j + k) % 5, 0 if j % 7 else 24])
+            if j % 11 == 0:
+                items.append([t, "N", (j + k + 2) % 5, 0 if j % 7 else 24])
+        big_tracks[h] = items
+    big = add_markers(dict(base, tracks=big_tracks,
+                           events=base["events"] + [[1000 + 10 * j, f"lyric la{j}"] for j in range(3000)]), 900000)
+    yield {"spec": big, "order": None, "unknown": []}
     # all 40 sections with one and the same body
     same = add_markers(dict(base, tracks={h: _track_for(7, "x") for h in S.HEADER_LIST}), 5000)
     same["tracks"] = {h: list(same["tracks"][S.HEADER_LIST[0]]) for h in S.HEADER_LIST}
